@@ -64,6 +64,8 @@ type threadWorld struct {
 	fatal    interface{}
 	killed   bool
 
+	preemptions int // context switches away from a runnable thread on this path
+
 	raceClause, deadlockClause string
 	raceReported               map[string]bool
 }
@@ -191,8 +193,18 @@ func (p *path) schedule() {
 	}
 	k := 0
 	if len(run) > 1 {
-		k = p.choose(len(run))
-		p.envChoices++
+		// preemption bound (context bounding): leaving a thread that could go on costs one preemption;
+		// once the budget of the path is spent the running thread keeps running until it blocks or ends
+		bound, bounded := p.cfg.Params["VF.preemptions"]
+		if bounded && run[0] == cur && w.preemptions >= bound {
+			k = 0
+		} else {
+			k = p.choose(len(run))
+			p.envChoices++
+			if run[0] == cur && k != 0 {
+				w.preemptions++
+			}
+		}
 	}
 	next := run[k]
 	if next == cur {
